@@ -321,6 +321,7 @@ def run(tier):
     from harness import probes
     probes.dynamic_over_default_conversion(R)
     recursive_field_conversion_probe(R)
+    probes.conversion_extra_probe(R)
     T1 = "world * list conv * cty * cdata * cobs"
     bad, errs = core.run_coq_shards("C12", HEADER + "\n".join(worlds) + "\n", items,
                                     "(fun c : " + T1 + " => let '(w, dyn, t, d, o) := c in cres_matches (deserialize_c w 12 dyn t d) o)",
